@@ -27,7 +27,12 @@ pub fn main(args: &[String]) {
     let (c2, s2) = (counter.clone(), sink.clone());
     verif::install_board_observer(Some(Arc::new(move |b: &Board| {
         let n = c2.fetch_add(1, Ordering::Relaxed);
-        if n % one_in == 0 {
+        // every board on which a side does not have exactly one king is forwarded to the specification, the
+        // others are sampled
+        let kings_wrong = [chess::board::color::Color::White, chess::board::color::Color::Black]
+            .iter()
+            .any(|c| b.pieces(*c).locate(chess::board::piece::Piece::King).0.count_ones() != 1);
+        if n % one_in == 0 || kings_wrong {
             let rec = json!({"t": "board", "obs": obs(b), "sum": summaries(b)}).to_string();
             let mut g = s2.lock().unwrap();
             if g.len() < cap {
@@ -61,6 +66,22 @@ pub fn main(args: &[String]) {
             }
             board.toggle_turn();
         }
+    }
+    // every sparse catalogue position: generation, annotation and a depth-2 search (the rule interactions the
+    // catalogue exists for -- pinned en passant, promotions in check, castling through attacks ...)
+    for p in seeds.iter() {
+        if p.b.iter().filter(|&&x| x != 0).count() > 10 {
+            continue;
+        }
+        let mut board = p.setup();
+        let side = board.turn();
+        let _ = guarded(|| {
+            gen.generate_moves_and_lazily_update_chess_move_effects(&mut board, side);
+        });
+        let _ = guarded(|| {
+            let mut ctx = SearchContext::new(2);
+            let _ = alpha_beta_search(&mut ctx, &mut board, &mut gen);
+        });
     }
     verif::install_board_observer(None);
     let seen = counter.load(Ordering::Relaxed);
